@@ -176,6 +176,13 @@ type Spec struct {
 	FilterCPs   []int `json:"filter_checkpoint_heights,omitempty"`
 	FilterCPAlt []int `json:"filter_checkpoint_alt_value_heights,omitempty"`
 	BlockCPs    []int `json:"block_checkpoint_heights,omitempty"`
+
+	// Cancel: the moment at which the context handed to the FIRST Import is
+	// cancelled (see cancel.go; "" = the plain background context of the
+	// other families); CancelK is that moment's ordinal (k-th store read /
+	// write, or microseconds for the timer kind).
+	Cancel  string `json:"cancel_context,omitempty"`
+	CancelK int    `json:"cancel_k,omitempty"`
 }
 
 func (s *Spec) end() int { return s.Start + s.Len - 1 }
